@@ -287,7 +287,7 @@ static std::string obs_json(int t) {
   for (int x : g_infac) { s += (f ? "\"t" : ",\"t") + std::to_string(x + 1) + "\""; f = false; }
   s += "],\"calls\":{";
   f = true;
-  for (auto& kv : g_calls) { s += (f ? "" : ","); s += vt::jstr((base_of(kv.first) == "A" || base_of(kv.first) == "bad3") ? std::string("bad") : base_of(kv.first)) + ":" + std::to_string(kv.second); f = false; }
+  for (auto& kv : g_calls) { s += (f ? "" : ","); s += vt::jstr((base_of(kv.first) == "A" || base_of(kv.first) == "bad3") ? std::string("bad") : kv.first.compare(0, 7, "Fixed/L") == 0 ? std::string("b") : base_of(kv.first)) + ":" + std::to_string(kv.second); f = false; }
   s += "}";
   return s;
 }
@@ -318,6 +318,8 @@ static std::string real_name(long beh, const std::string& n) {
   }
   // the model's name "bad" is spelled as the good name "a" of the same behaviour in the other letter case: a name the
   // data source does not have, equal to a loadable one ignoring case (names are distinct strings: no sharing)
+  // the good name "b" lives in the "Fixed/" name space without being a fixed-offset name (it is served by the factory)
+  if (n == "b") return "Fixed/L" + std::to_string(beh) + "b";
   if (n == "bad") return (beh % 2) ? "l" + std::to_string(beh) + "/A" : "L" + std::to_string(beh) + "/bad3";   // bad3: served, but not TZif
   return "L" + std::to_string(beh) + "/" + n;
 }
